@@ -641,6 +641,30 @@ def run_reinterpret(ctx, stats):
                                                                                             op="reinterpret-dynamic"))
 
 
+    # translating INTO THE POINTER'S OWN vocabulary applies the same transform as any other translation: the sum of
+    # the outer products over the requested keys (a projector, not the identity); every key subset, the empty one too
+    for aname, A in ALG.items():
+        own = spa.Vocabulary(4, algebra=A, strict=True)
+        own.add("A", [1.0, 0.0, 0.0, 0.0])
+        own.add("B", [0.0, 0.5, 0.5, 0.0])
+        x = np.array([1.0, 2.0, 3.0, 4.0])
+        for keys in (None, ["A"], ["B"], ["A", "B"], [], ("A",)):
+            req = ["A", "B"] if keys is None else list(keys)
+            want = sum((own[k].v * float(np.dot(own[k].v, x)) for k in req), np.zeros(4))
+            for via, fn in (("pointer.translate", lambda: spa.SemanticPointer(x, vocab=own).translate(own, populate=False, keys=keys).v),
+                            ("spa.translate", lambda: spa.translate(spa.SemanticPointer(x, vocab=own), own, populate=False, keys=keys).v),
+                            ("transform_to", lambda: np.dot(own.transform_to(own, populate=False, keys=keys), x))):
+                case = {"op": "translate-into-own-vocabulary", "algebra": aname, "keys": None if keys is None else list(keys), "via": via}
+                ctx.count(f"own {aname} {keys} {via}", nontrivial=True, branch="translate-own-vocabulary")
+                try:
+                    got = np.asarray(fn(), dtype=float)
+                    if got.shape != want.shape or not np.allclose(got, want, rtol=0, atol=1e-12):
+                        ctx.fail(case, got.tolist(), want.tolist(), where="translate-own-vocabulary")
+                except Exception as ex:  # noqa: BLE001
+                    ctx.fail(case, f"{type(ex).__name__}: {ex}"[:100], want.tolist(), where="translate-own-vocabulary")
+        if len(own) != 2:
+            ctx.fail({"op": "translate-into-own-vocabulary", "algebra": aname}, list(own), ["A", "B"], where="translate-own-vocabulary")
+
     # a target vocabulary that holds no keys yet (a falsy Mapping) is still THE vocabulary of the result
     for aname, A in ALG.items():
         empty = spa.Vocabulary(4, algebra=A)
